@@ -223,6 +223,8 @@ def parse_operand(s):
             return (pre.split()[-1], parse_place(s[len(pre):]))
     if s.startswith('const '):
         return ('const', s[6:].strip())
+    if re.match(r'^[A-Za-z_<][\w:<>, &\[\];\'()]*$', s) and '::' in s:
+        return ('fnitem', s)
     raise MirError('operand? ' + s[:200])
 
 
@@ -600,6 +602,8 @@ class Engine:
         return '?'
 
     def operand_type(self, fr, op):
+        if op[0] == 'fnitem':
+            return 'fn'
         if op[0] == 'const':
             m = re.match(r'^-?\d+_(\w+)$', op[1])
             if m:
@@ -674,6 +678,8 @@ class Engine:
     def eval_operand(self, st, fr, op):
         if op[0] == 'const':
             return self.const_value(st, fr, op[1])
+        if op[0] == 'fnitem':
+            return FnItem(op[1])
         c, path = self.resolve(st, fr.index, op[1])
         v = self.read(st, c, path)
         return copy_val(v)
@@ -821,11 +827,13 @@ class Engine:
             if v.kind != 'enum':
                 raise MirError(f'discriminant of {v!r}')
             en = last_seg(v.ty)
-            vs = self.prog.cat.variants(en, v.ty)
             vn = last_seg(v.variant)
-            if not vs or vn not in vs:
-                raise MirError(f'unknown variant index: {v.ty}::{vn}')
-            return z3.BitVecVal(vs.index(vn), 64)
+            if en == 'Ordering' and vn in ('Less', 'Equal', 'Greater'):
+                return z3.BitVecVal({'Less': -1, 'Equal': 0, 'Greater': 1}[vn], 64)
+            dv = self.prog.cat.discr_values(en, v.ty)
+            if not dv or vn not in dv:
+                raise MirError(f'unknown variant discriminant: {v.ty}::{vn}')
+            return z3.BitVecVal(dv[vn], 64)
         if isinstance(v, Opaque):
             return v.discriminant()
         if isinstance(v, Ref):
